@@ -13,7 +13,8 @@
    host reverses the path and answers.                                                           *)
 EXTENDS DataplaneOps, TLC, Json
 
-CONSTANTS MaxLen      \* maximum number of AS entries of a segment
+CONSTANTS MaxLen,      \* maximum number of AS entries of a segment
+          TamperTopos  \* indices of the topologies in which the C04 mutation is explored
 
 Topos == ndJsonDeserialize("topos.ndjson")
 NT == Len(Topos)
@@ -132,14 +133,15 @@ Paths(T, src, dst) ==
     IN {pa \in {MkPath(src, dst, parts) : parts \in all} : NotLong(pa)}
 
 \* ------------------------------------------------------------------ journeys
-VARIABLES ti, pkt, ifs, loc, leg, k, status, src0, dst0
-vars == <<ti, pkt, ifs, loc, leg, k, status, src0, dst0>>
+VARIABLES ti, pkt, ifs, loc, leg, k, status, src0, dst0,
+          tam      \* C04: [on |-> FALSE] or the single alteration applied: [on, kind, h (first dependent hop, 0-based)]
+vars == <<ti, pkt, ifs, loc, leg, k, status, src0, dst0, tam>>
 
 NoPkt == [src |-> "", dst |-> "", ci |-> 0, ch |-> 0, sl |-> <<0, 0, 0>>, infos |-> <<>>, hops |-> <<>>]
 NoLoc == [as |-> "", r |-> 0, scope |-> "none", inif |-> 0, from |-> 0]
 
 Init == /\ ti \in 1..NT /\ pkt = NoPkt /\ ifs = <<>> /\ loc = NoLoc /\ leg = "none" /\ k = 0
-        /\ status = "choose" /\ src0 = "" /\ dst0 = ""
+        /\ status = "choose" /\ src0 = "" /\ dst0 = "" /\ tam = [on |-> FALSE, kind |-> "", h |-> 0]
 
 FirstLoc(T, as, path) ==
     \* the host hands the packet to the router that owns the first egress interface
@@ -153,7 +155,7 @@ Choose ==
               /\ pkt' = pa.pkt /\ ifs' = pa.ifs /\ src0' = s /\ dst0' = d
               /\ loc' = FirstLoc(TT[ti], s, pa)
               /\ leg' = "req" /\ k' = 0 /\ status' = "flight"
-    /\ UNCHANGED ti
+    /\ UNCHANGED <<ti, tam>>
 
 LegIfs == IF leg = "rep" THEN Rev(ifs) ELSE ifs
 LegDst == IF leg = "rep" THEN src0 ELSE dst0
@@ -183,7 +185,33 @@ Step ==
               /\ status' = IF e.pas = LegIfs[2 * k + 2].as /\ e.pif = LegIfs[2 * k + 2]["if"]
                            THEN "flight" ELSE "strayed"
               /\ UNCHANGED leg
-    /\ UNCHANGED <<ti, ifs, src0, dst0>>
+    /\ UNCHANGED <<ti, ifs, src0, dst0, tam>>
+
+\* C04: somebody on the way alters ONE MAC-protected value of a hop or info field that no router
+\* has validated yet.  Symbolically: an altered ConsIngress/ConsEgress/ExpTime/MAC makes the hop's
+\* MAC invalid for its fields (ok = FALSE; for the interfaces the value itself changes too); an
+\* altered Timestamp invalidates every hop of the segment; an altered SegID is an accumulator that
+\* no hop was created with.
+SegStart(p, i) == IF i = 0 THEN 0 ELSE IF i = 1 THEN p.sl[1] ELSE p.sl[1] + p.sl[2]
+FreshVisit == loc.scope \in {"int", "ext"}     \* not the second router of the same AS
+Junk == {<<"junk", <<>>, 0>>}
+TamperAct ==
+    /\ status = "flight" /\ leg = "req" /\ ~tam.on /\ ti \in TamperTopos
+    /\ \/ \E h \in 0..(NumHops(pkt) - 1), kind \in {"mac", "in", "eg"} :
+            /\ h > pkt.ch \/ (h = pkt.ch /\ FreshVisit)
+            /\ pkt' = [pkt EXCEPT !.hops[h + 1] =
+                          IF kind = "mac" THEN [@ EXCEPT !.ok = FALSE]
+                          ELSE IF kind = "in" THEN [@ EXCEPT !.ok = FALSE, !.in = @ + 1000]
+                          ELSE [@ EXCEPT !.ok = FALSE, !.eg = @ + 1000]]
+            /\ tam' = [on |-> TRUE, kind |-> kind, h |-> h]
+       \/ \E i \in 0..(NumInf(pkt) - 1), kind \in {"segid", "ts"} :
+            /\ i > pkt.ci \/ (i = pkt.ci /\ pkt.ch = SegStart(pkt, i) /\ FreshVisit)
+            /\ pkt' = IF kind = "segid" THEN [pkt EXCEPT !.infos[i + 1].sid = Junk]
+                       ELSE [pkt EXCEPT !.hops = [m \in DOMAIN pkt.hops |->
+                                IF InfIdx(pkt, m - 1) = i THEN [pkt.hops[m] EXCEPT !.ok = FALSE]
+                                ELSE pkt.hops[m]]]
+            /\ tam' = [on |-> TRUE, kind |-> kind, h |-> SegStart(pkt, i)]
+    /\ UNCHANGED <<ti, ifs, loc, leg, k, status, src0, dst0>>
 
 \* the destination host reverses the path of the packet it received and answers through the router
 \* that delivered it
@@ -192,16 +220,20 @@ HostReverse ==
     /\ pkt' = Reverse(pkt)
     /\ loc' = [loc EXCEPT !.scope = "int", !.inif = 0, !.from = 0]
     /\ leg' = "rep" /\ k' = 0 /\ status' = "flight"
-    /\ UNCHANGED <<ti, ifs, src0, dst0>>
+    /\ UNCHANGED <<ti, ifs, src0, dst0, tam>>
 
-Next == Choose \/ Step \/ HostReverse
+Next == Choose \/ Step \/ HostReverse \/ TamperAct
 Spec == Init /\ [][Next]_vars
 
 \* ------------------------------------------------------------------ properties
 \* C02 + C03: no honest request or reply is dropped or leaves the interface list of its path
-Honest == status \notin {"dropped", "strayed"}
+Honest == ~tam.on => status \notin {"dropped", "strayed"}
+\* C04: a tampered packet is never handed to the destination host and does not survive the router
+\* that validates the first hop field depending on the altered value
+NoDeliveryAfterTamper == tam.on => /\ status \notin {"delivered", "answered"}
+                                   /\ (status = "flight" => pkt.ch <= tam.h)
 \* C07 (frame): a router changes only pointers and segment identifiers
-Frame == [][status = "flight" /\ status' # "choose" /\ leg' = leg =>
+Frame == [][status = "flight" /\ status' # "choose" /\ leg' = leg /\ tam' = tam =>
               pkt'.hops = pkt.hops /\ pkt'.src = pkt.src /\ pkt'.dst = pkt.dst /\ pkt'.sl = pkt.sl
               /\ \A i \in DOMAIN pkt.infos : pkt'.infos[i].c = pkt.infos[i].c /\ pkt'.infos[i].p = pkt.infos[i].p]_vars
 \* C22: the accumulator in force when a router validates the current hop is its construction value
@@ -209,7 +241,7 @@ Frame == [][status = "flight" /\ status' # "choose" /\ leg' = leg =>
 InForce(p, as, inif) ==
     LET i == CurInf(p) h == CurHop(p) IN
     IF ~i.c /\ inif # 0 /\ ~PeerOf(p) THEN Upd(i.sid, h.sig) ELSE i.sid
-SegIDInSync == status = "flight" => InForce(pkt, loc.as, loc.inif) = CurHop(pkt).bc
+SegIDInSync == status = "flight" /\ ~tam.on => InForce(pkt, loc.as, loc.inif) = CurHop(pkt).bc
 \* every journey ends: reply delivered
 Done == <>(status = "answered")
 =============================================================================
